@@ -989,7 +989,7 @@ def _an_type(n):
 
 
 # ------------------------------------------------------------------------------------------------------
-def _static_stamps(prog, chk, R, ex, ev):
+def _static_stamps(prog, chk, R, ex, ev, rule='R08.4'):
     """Value::className is the static-type stamp the runtime overload/lookup machinery reads (valueConversionCost, member-call
     static class).  `assign` keeps a slot's stamp when a new object is stored.  The sites that *create* a slot from a declared
     type must establish it: declarations with an initialiser, parameter binding, returned values."""
@@ -1014,7 +1014,7 @@ def _static_stamps(prog, chk, R, ex, ev):
     chk.count('slot-creating bindings (parameters, declarations)', len(sites), 4)
     for f, g, n, val, key in sites:
         ok = _stamped(prog, g, n, val, stampers)
-        chk.ob('R08.4', f, n.ln or f.ln, ok,
+        chk.ob(rule, f, n.ln or f.ln, ok,
                'the value bound to declared slot %s carries the declared class as its static-type stamp (the runtime re-resolves overloads and looks members up from the stamp; '
                'with the dynamic class there, `Base b = new Derived(); k.f(b)` runs f(Derived) although the analyser resolved f(Base))' % key[:40],
                key='stamp:%s:%s' % (f.short, key[:30]))
@@ -1028,7 +1028,7 @@ def _static_stamps(prog, chk, R, ex, ev):
                 continue
             nret += 1
             ok = _stamped(prog, g, rn, v, stampers)
-            chk.ob('R08.4', f, rn.ln or f.ln, ok, 'the value returned by %s carries the declared return class as its stamp (`k.f(mk())` with mk() declared to return Base resolves f(Base))' % f.short,
+            chk.ob(rule, f, rn.ln or f.ln, ok, 'the value returned by %s carries the declared return class as its stamp (`k.f(mk())` with mk() declared to return Base resolves f(Base))' % f.short,
                    key='stamp:return:' + f.short)
     chk.count('activation results', nret, 2)
     # (b'') stores into an existing typed slot (fields, statics, variables): the stored copy takes the slot's static class — either
@@ -1058,7 +1058,7 @@ def _static_stamps(prog, chk, R, ex, ev):
                 for wn, l, r, op in g.writes():
                     if wn.id in back and op == '=' and _member_of(l, 'className', val.get('id')) and _mentions(r, lambda x: x.get('k') == 'member' and x.get('name') == 'className'):
                         ok = True
-            chk.ob('R08.4', f, node.ln or f.ln, ok,
+            chk.ob(rule, f, node.ln or f.ln, ok,
                    'the value stored into an existing slot (%s) takes the slot\'s static class (stamped from the declared type, or keeping the slot\'s stamp): '
                    'with the dynamic class there, a later `k.f(slot)` runs f(Derived) although the analyser resolved f(Base)' % SX.show(val)[:30],
                    key='stamp:store:%s:%s' % (f.short, SX.show(val)[:20]))
@@ -1078,7 +1078,7 @@ def _static_stamps(prog, chk, R, ex, ev):
             if len(a) < 2:
                 continue
             ner += 1
-            chk.ob('R08.4', f, c.ln or f.ln, not empty_value(a[1]),
+            chk.ob(rule, f, c.ln or f.ln, not empty_value(a[1]),
                    'a statement stores a default-constructed Value into a declared slot: the slot loses its kind and its static class, so the next object assigned to it keeps '
                    'its dynamic class (`destroy a; a = new Dog(); k.take(a)` runs take(Dog) for a declared Animal)', key='stamp:erase:%s:%s' % (f.short, SX.show(a[0])[:20]))
         for n, l, r, op in g.writes():
@@ -1086,7 +1086,7 @@ def _static_stamps(prog, chk, R, ex, ev):
             if op == '=' and SX.is_node(l0) and l0.get('k') in ('index', 'opcall') and any(x.get('k') == 'member' and x.get('name') in ('fields', 'staticStorage') for x in SX.walk(l0)) \
                     and 'Value' in (l0.get('t') or ''):
                 ner += 1
-                chk.ob('R08.4', f, n.ln or f.ln, not empty_value(r),
+                chk.ob(rule, f, n.ln or f.ln, not empty_value(r),
                        'a statement overwrites a field slot with a default-constructed Value: the slot loses its kind and its static class, so the next object assigned to it by '
                        'bare name keeps its dynamic class', key='stamp:erase:%s:%s' % (f.short, SX.show(l0)[:30]))
     chk.count('statement-level slot stores examined for erasure', ner, 3)
@@ -1099,7 +1099,7 @@ def _static_stamps(prog, chk, R, ex, ev):
     for i_ in nulls:
         ok = _mentions(i_['c'], lambda x: x.get('k') == 'member' and x.get('name') == 'className') or \
             any(_mentions(_if_cond(o), lambda x: x.get('k') == 'member' and x.get('name') == 'className') for o, pol in _syn_guards(rt, i_))
-        chk.ob('R08.4', rt, i_.get('ln', rt.ln), ok,
+        chk.ob(rule, rt, i_.get('ln', rt.ln), ok,
                'only an unstamped null (the literal) takes the null cost; a null held in a variable of declared class type is costed by that type '
                '(`Base n = null; k.g(n)` with g(Base)/g(Other) is otherwise ambiguous at run time and the call is silently dropped)', key='stamp:null-cost')
     chk.count('null-cost tests', len(nulls), 1)
